@@ -1162,6 +1162,12 @@ def load_vi_bindings() -> KeyBindingsBase:
             clipboard_data = None
             buff = event.current_buffer
 
+            if with_register and event.key_sequence[1].data not in vi_register_names:
+                # Not a register we have (like `"Ad`): do nothing, like the
+                # yank operator, rather than deleting text that is stored
+                # nowhere.
+                return
+
             if text_object:
                 new_document, clipboard_data = text_object.cut(buff)
                 buff.document = new_document
